@@ -579,7 +579,9 @@ Edit(who, kind, f, c) ==
            \* agent protocol: an agent starts editing from a checkpointed state (the pre-edit human checkpoint)
            /\ (who # H => \A g \in File : dirty[g] = who \/ (dirty[g] = None /\ Settled(g)))
            /\ Len(c) <= MaxLines
-           /\ LineSubset(HeadTree[f], idx[f], c))
+           \* the index stays "between" HEAD and the work tree; with "unstage_del" in the alphabet a person may
+           \* also delete, in the work tree only, lines that are already staged
+           /\ (LineSubset(HeadTree[f], idx[f], c) \/ ("unstage_del" \in Alphabet /\ who = H /\ kind = "del")))
   /\ LET fresh == { u \in UidsOf(c) : u >= nu }
      IN /\ truth' = [u \in 1..MaxUid |-> IF u \in fresh THEN who ELSE truth[u]]
         /\ nu' = IF fresh = {} THEN nu ELSE Max(fresh) + 1
@@ -746,7 +748,15 @@ Commit(mode, F) ==
         /\ AiAdopt(g, [wl EXCEPT ![b] = EmptyWL],
                    [ini EXCEPT ![b] = NoMaps, ![c] = IF anyIni THEN res.ni ELSE ini[c]],
                    [notes EXCEPT ![c] = MkNote(res.nf, res.sess)],
-                   FiredDevs(op))
+                   \* As built, attribution follows the WORK TREE: an AI line that is committed from the index but is
+                   \* no longer in the work tree (staged, then deleted by hand, the deletion not staged) is not in
+                   \* git-ai's last snapshot of the file: its author is lost ("index_only_lines_unattributed").
+                   FiredDevs(op) \cup
+                   (IF "index_only_lines_unattributed" \in Dev
+                       /\ \E f \in File : \E n \in DOMAIN nt[f] :
+                             /\ nt[f][n] \notin LinesOf(wt[f]) /\ nt[f][n] \notin LinesOf(HeadTree[f])
+                             /\ truth[nt[f][n][1]] # H
+                    THEN {"index_only_lines_unattributed"} ELSE {}))
   /\ dirty' = [f \in File |-> IF nt[f] = wt[f] THEN None ELSE dirty[f]]
   /\ ops' = {}
   /\ UNCHANGED <<truth, nu, der, stash, snote>>
@@ -1261,6 +1271,7 @@ GenRewrite ==
         IN /\ Len(full) > n
            /\ \E plan \in PlansFor(SubSeq(full, Len(full) - n + 1, Len(full))) : IRebase(n, plan)
   \/ "cherry_many" \in Alphabet /\ \E a \in 1..nc, b \in 1..nc : CherryPickMany(<<a, b>>)
+  \/ "conflict_skip" \in Alphabet /\ (RebaseR("theirs", "skip") \/ \E a \in 1..nc, b \in 1..nc : CherryPickManyR(<<a, b>>, "theirs", "skip"))
   \/ "conflict" \in Alphabet /\ \E res \in {"theirs", "union"}, how \in {"continue", "commit", "abort", "skip"} :
         \/ \E o \in 1..nc : CherryPickR(o, res, how)
         \/ RebaseR(res, how)
